@@ -15,7 +15,7 @@ def b01 (s : String) : Bool := s == "1"
 
 def vArrive (v : VThread) : String :=
   match v.pc with
-  | .start => "start" | .miss => "v.miss" | .row => "v.row" | .preins => "v.preins"
+  | .start => "start" | .hit => "v.hit" | .miss => "v.miss" | .row => "v.row" | .preins => "v.preins"
   | .ins => "v.ins" | .norow => "v.norow"
   | .done => if v.res == some true then "done:ok" else "done:nil"
 
